@@ -23,8 +23,11 @@ ops
      (`ov` lines script the interleaving of overlapping requests; the `req` line of such a uid follows later)
 * `req path=<p> body=<ok|garbage|norequest> uid=<u>`  → the answer and who ran (model)
 * `oracle req path=… body=… uid=… ans=<answer…>`      → the property on the observed exchange
-* `oracle handed path=… uid=… ghook=<id> gbinding=<name> guid=<uid>` → the hand-over clause on one observed hook
-     process: the process started for the request `uid` to `path` logged that hook / binding / request uid
+* `oracle handed path=… uid=… name=<object name sent> ghook=<id> gbinding=<name> guid=<uid> gtype=<type> gn=<n>
+     gname=<object name>` → the hand-over clause on one observed hook process: the process started for the request
+     `uid` to `path` logged that hook / binding / request uid / context type / number of contexts / object name
+     (for every request whose hook process can be told: the only one in flight, or scripted)
+   the kind token of a `hook` line may carry the binding's optional configuration fields: `m,g=main,fp=Ignore,…`
 -/
 namespace ShellOp.Drv.C14
 open ShellOp ShellOp.Util ShellOp.Admission
@@ -86,10 +89,22 @@ def parseOutcome (s : String) : Option RunDecl :=
     | _, _, _ => none
   | _ => none
 
+/-- the optional fields of a binding's configuration, as generated: part of the input (`g=` group,
+`fp=` failurePolicy, `se=` sideEffects, `ts=` timeoutSeconds, `ls=` labelSelector, `ns=` namespace
+selector); none of them has a consequence for who is run, what it is handed or what is answered -/
+def knownOption (o : String) : Bool :=
+  match o.splitOn "=" with
+  | [k, v] => ["g", "fp", "se", "ts", "ls", "ns"].contains k && !v.isEmpty
+  | _ => false
+
 def parseBinding (s : String) : Option BindingDecl :=
   match s.splitOn "|" with
   | k :: name :: rest =>
-    let kind? : Option Kind := if k == "v" then some .validating else if k == "m" then some .mutating else none
+    let (k, optsOk) : String × Bool := match k.splitOn "," with
+      | k :: opts => (k, opts.all knownOption)
+      | [] => (k, false)
+    let kind? : Option Kind :=
+      if !optsOk then none else if k == "v" then some .validating else if k == "m" then some .mutating else none
     match kind?, parseOutcome (String.intercalate "|" rest) with
     | some kind, some o => some ⟨⟨kind, (dec name).toList⟩, o⟩
     | _, _ => none
@@ -312,12 +327,13 @@ def step (st : St) (toks : List String) : St × String :=
   | "oracle" :: "handed" :: rest =>
     match kv? "path" rest, kv? "uid" rest, kv? "ghook" rest, kv? "gbinding" rest, kv? "guid" rest with
     | some p, some uid, some gh, some gb, some gu =>
-      match parseRan st (gh ++ ":" ++ gb) with
-      | some (some (h, b)) =>
-        match checkHanded st.hooks (dec p).toList (dec uid) ⟨h, b, dec gu⟩ with
+      match parseRan st (gh ++ ":" ++ gb), kv? "name" rest, kv? "gtype" rest, (kv? "gn" rest).bind String.toNat?,
+          kv? "gname" rest with
+      | some (some (h, b)), some name, some gt, some gn, some gname =>
+        match checkHandedCtx st.hooks (dec p).toList (dec uid) (dec name) ⟨h, b, dec gu⟩ (dec gt) gn (dec gname) with
         | none => (st, "true")
         | some why => (st, "false " ++ why)
-      | _ => (st, "bad-op")
+      | _, _, _, _, _ => (st, "bad-op")
     | _, _, _, _, _ => (st, "bad-op")
   | _ => (st, "bad-op")
 
